@@ -1323,10 +1323,27 @@ Proof. unfold transition. apply transition_to_XT. intro c. apply do_ctl_XK. Qed.
 Lemma do_pause_top_XT msg next : XT (option_map label_of next) (do_pause (do_ctl reent_fuel) msg next).
 Proof. apply do_pause_XT. intro c. apply do_ctl_XK. Qed.
 
+Lemma do_pause_deferred_X msg next w (Q : result bool -> world -> Prop) :
+  GA w -> (forall r w', (exists n, RT n w w') -> Q r w') -> wp (do_pause_deferred msg next) Q w.
+Proof.
+  intros G HQ. unfold do_pause_deferred. do 2 wp_prim.
+  assert (Hold : wp (do_pause (do_ctl reent_fuel) msg next) Q w).
+  { apply do_pause_top_XT; [exact G|]. intros r w' R. apply HQ. eexists; exact R. }
+  destruct next as [ns|]; [|exact Hold]. destruct (pausing w) as [a'|]; [|exact Hold].
+  assert (H : Xat (Some (label_of ns)) (finally (bind (transition (Some ns)) (fun _ => bind get (fun w1 =>
+                if match pausing w1 with Some b => Nat.eqb a' b | None => false end
+                then do_pause (do_ctl reent_fuel) msg None else ret false)))
+              (modify (fun w => w <| pausing := None |>))) w).
+  { xstep; [|apply FrX_XT; apply modify_FrX; intro; repeat split; auto].
+    xstep; [apply (transition_XT (Some ns))|]. xstep. xstep. xstep; [|xstep].
+    apply (XK_XT (Some (label_of ns))). apply (do_pause_top_XT msg None). }
+  apply H; [exact G|]. intros r w' R. apply HQ. eexists; exact R.
+Qed.
+
 Lemma action_body_X k next w (Q : result bool -> world -> Prop) :
   GA w -> (forall r w', (exists n, RT n w w') -> Q r w') ->
   wp (match k with
-      | KPause msg => do_pause (do_ctl reent_fuel) msg next
+      | KPause msg => do_pause_deferred msg next
       | KKill msg => finally (match next with
                               | Some (SExcepted e) => bind (transition next) (fun _ => ret false)
                               | _ => bind (transition (Some (SKilled (Some msg)))) (fun _ => ret true)
@@ -1335,7 +1352,7 @@ Lemma action_body_X k next w (Q : result bool -> world -> Prop) :
       end) Q w.
 Proof.
   intros G HQ. destruct k as [msg|msg].
-  - apply do_pause_top_XT; [exact G|]. intros r w' R. apply HQ. eexists; exact R.
+  - apply do_pause_deferred_X; assumption.
   - assert (Hm : forall n, XT n (modify (fun w => w <| killing := None |>))) by (intro n; apply FrX_XT; apply modify_FrX; intro; repeat split; auto).
     assert (Hk : Xat (Some LKilled) (finally (bind (transition (Some (SKilled (Some msg)))) (fun _ => ret true)) (modify (fun w => w <| killing := None |>))) w).
     { xstep; [|apply Hm]. xstep; [apply (transition_XT (Some (SKilled (Some msg)))) | xstep; xstep]. }
